@@ -208,6 +208,28 @@ def check_report_cells(ctx, drv, cells, model):
                                        "replay": {"kind": "cell", "spans": want, "impl": cell, "spec(parse of impl)": read}, "signature": None})
 
 
+DEEP_TAXA = ["deep/" + "/".join("abcdefghijkl"[:k]) for k in (5, 6, 7, 8, 9, 10, 12)]
+
+
+def near_ties(rng, db):
+    """Rewrite the taxa of a generated database so that its programs have NEARLY equal costs: a common base plus one or
+    two deep taxa (6-13 edges: under zeno the costs differ by 2^-7 ... 2^-13, far below a hundredth), with line counts
+    drawn independently. Orders that compare rounded or truncated costs, or that let the SLOC tie-break speak too early,
+    differ from the (cost, sloc) order only here (seed C17-l: sort key `(round(cost, 2), sloc)`)."""
+    base = rng.sample([t for t in filt.TAXA_POOL if not t.startswith("meta")], rng.randint(0, 2))
+    for p, info in db["programs"].items():
+        taxa = {t: sp for t, sp in info["taxa"].items() if t == "meta/program"}
+        for t in base + rng.sample(DEEP_TAXA, rng.choice([1, 1, 2])):
+            taxa[t] = [[1, 1]]
+        info["taxa"] = dict(sorted(taxa.items()))
+    index = {}
+    for p in sorted(db["programs"]):
+        for t in db["programs"][p]["taxa"]:
+            index.setdefault(t, []).append(p)
+    db["taxa"] = dict(sorted(index.items()))
+    return db
+
+
 def run(ctx):
     core.prove(ctx)
     core.import_repo()
@@ -218,6 +240,9 @@ def run(ctx):
         n = 400 if ctx.tier == "quick" else 60000
         for i in range(n):
             db = filt.gen_db(rng, max_programs=7)
+            if rng.random() < 0.25:
+                db = near_ties(rng, db)
+                ctx.dist("near_ties")
             for p, info in db["programs"].items():   # vary sloc
                 info["source"] = "\n".join("x" for _ in range(rng.randint(1, 9)))
             runs = [[filt.gen_command(rng, db, odd=(i % 7 == 0), bad_ok=False) for _ in range(rng.randint(0, 4))]
